@@ -15,7 +15,7 @@ out = os.path.join(wt, os.environ.get("SEED_OUT", "OUT"))
 dst = os.path.join("/verif/seeded", name)
 
 def sh(cmd, cwd=None, timeout=600):
-    p = subprocess.run(cmd, shell=True, cwd=cwd, stdout=subprocess.PIPE, stderr=subprocess.STDOUT, text=True, timeout=timeout)
+    p = subprocess.run(cmd, shell=True, cwd=cwd, stdout=subprocess.PIPE, stderr=subprocess.STDOUT, text=True, errors="replace", timeout=timeout)
     return p.returncode, p.stdout
 
 def demo_cmd():
